@@ -114,15 +114,27 @@ impl Verdict {
 pub static RUNS_DONE: std::sync::atomic::AtomicU64 = std::sync::atomic::AtomicU64::new(0);
 pub static RUNS_IN_FLIGHT: std::sync::atomic::AtomicI64 = std::sync::atomic::AtomicI64::new(0);
 
+/// The input each thread is currently running (for the watchdog's report).
+static IN_FLIGHT_INPUTS: std::sync::Mutex<Vec<(std::thread::ThreadId, Input, usize)>> = std::sync::Mutex::new(Vec::new());
+/// The property the process is checking (set by `Report::new`).
+pub static CURRENT_CHECK: std::sync::Mutex<String> = std::sync::Mutex::new(String::new());
+
 struct InFlight;
 impl InFlight {
-    fn new() -> InFlight {
+    fn new(input: &Input, ps: usize) -> InFlight {
         RUNS_IN_FLIGHT.fetch_add(1, std::sync::atomic::Ordering::Relaxed);
+        if let Ok(mut v) = IN_FLIGHT_INPUTS.lock() {
+            v.push((std::thread::current().id(), input.clone(), ps));
+        }
         InFlight
     }
 }
 impl Drop for InFlight {
     fn drop(&mut self) {
+        if let Ok(mut v) = IN_FLIGHT_INPUTS.lock() {
+            let me = std::thread::current().id();
+            v.retain(|(t, _, _)| *t != me);
+        }
         RUNS_IN_FLIGHT.fetch_sub(1, std::sync::atomic::Ordering::Relaxed);
         RUNS_DONE.fetch_add(1, std::sync::atomic::Ordering::Relaxed);
     }
@@ -143,7 +155,31 @@ pub fn start_watchdog(secs: u64) {
             if RUNS_IN_FLIGHT.load(Relaxed) > 0 && done == last {
                 stuck += 5;
                 if stuck >= secs {
-                    eprintln!("MACHINERY-ERROR: a pyxis pipeline run has not returned for {secs} s (endless loop or unbounded allocation in pyxis on some input of this space; `./check C12 quick` isolates such inputs)");
+                    let check = CURRENT_CHECK.lock().map(|c| c.clone()).unwrap_or_default();
+                    let stuck_inputs: Vec<(Input, usize)> = IN_FLIGHT_INPUTS.lock().map(|v| v.iter().map(|(_, i, p)| (i.clone(), *p)).collect()).unwrap_or_default();
+                    // Termination is part of C10's and C12's statements ("always ends the build
+                    // with an error", "never ... an endless loop"): there a build that does not
+                    // return is a violation, with the input in flight as the counterexample.
+                    if (check == "C10" || check == "C12") && !stuck_inputs.is_empty() {
+                        let (input, ps) = &stuck_inputs[0];
+                        let mut rep = crate::report::Report::new(&check, &std::env::var("VERIF_TIER").unwrap_or_else(|_| "quick".into()));
+                        rep.rule = "aborted by the hang watchdog: see the violation".into();
+                        rep.states = done;
+                        rep.transitions = done;
+                        rep.traces = done;
+                        rep.evaluations = done;
+                        rep.distinct.insert(1);
+                        rep.distinct.insert(2);
+                        rep.sample(serde_json::json!({"input": input.render(), "outcome": "did not return"}));
+                        rep.violation(crate::report::Violation { key: "build_does_not_return".into(), features: vec![], input: input.clone(), ps: *ps, detail: format!("SemanticState::build has not returned for {secs} s on this input ({} pipeline runs completed before)", done), locator: serde_json::json!({"space": "watchdog"}) });
+                        let code = rep.finish();
+                        crate::util::cleanup_scratch();
+                        std::process::exit(code);
+                    }
+                    eprintln!("MACHINERY-ERROR: a pyxis pipeline run has not returned for {secs} s (endless loop or unbounded allocation in pyxis; `./check C12 quick` isolates such inputs). In flight:");
+                    for (i, p) in stuck_inputs.iter().take(2) {
+                        eprintln!("--- pointer size {p} ---\n{}", i.render());
+                    }
                     crate::util::cleanup_scratch();
                     std::process::exit(2);
                 }
@@ -324,7 +360,7 @@ pub fn run(input: &Input, ps: usize) -> Verdict {
 }
 
 pub fn run_with(input: &Input, ps: usize, do_emit: bool) -> Verdict {
-    let _guard = InFlight::new();
+    let _guard = InFlight::new(input, ps);
     let parsed = match parse_all(input) {
         Ok(p) => p,
         Err(v) => return v,
@@ -353,7 +389,7 @@ pub fn run_scheduled(
     add_order: &[usize],
     scheduler: pyxis::verif::Scheduler,
 ) -> Verdict {
-    let _guard = InFlight::new();
+    let _guard = InFlight::new(input, ps);
     let parsed = match parse_all(input) {
         Ok(p) => p,
         Err(v) => return v,
